@@ -1,4 +1,5 @@
 mod common;
+mod rd;
 mod st;
 mod wal;
 
@@ -8,6 +9,7 @@ fn main() {
     let out = match args.prop.as_str() {
         "C01" => wal::run(&args),
         "C04" | "C06" => st::run(&args),
+        "C23" => rd::run(&args),
         p => {
             eprintln!("unknown property {p}");
             std::process::exit(2);
